@@ -238,6 +238,21 @@ def builders(model):
                     weighting=qw()))
             B['PointwiseSum[%s]' % t] = lambda I, S, cx=cx, wt=wt: inst(
                 I, 'PointwiseSum', vf(cx, wt)[1])
+            # explicit unit operator weights (differ from the weights of a
+            # weighted product space)
+            ones = lambda: NA(objarr([Rat.const(1)] * 3), 'float64')
+            B['PointwiseInner[%s,weighting=1]' % t] = (
+                lambda I, S, cx=cx, wt=wt: inst(
+                    I, 'PointwiseInner', vf(cx, wt)[1],
+                    sym_elem(vf(cx, wt)[1], 'g'), weighting=1.0))
+            B['PointwiseInnerAdjoint[%s,weighting=(1,1,1)]' % t] = (
+                lambda I, S, cx=cx, wt=wt: inst(
+                    I, 'PointwiseInnerAdjoint', vf(cx, wt)[0],
+                    sym_elem(vf(cx, wt)[1], 'g'), vfspace=vf(cx, wt)[1],
+                    weighting=ones()))
+            B['PointwiseSum[%s,weighting=(1,1,1)]' % t] = (
+                lambda I, S, cx=cx, wt=wt: inst(
+                    I, 'PointwiseSum', vf(cx, wt)[1], weighting=ones()))
         B['PointwiseInnerAdjoint[%s,default vfspace,weighting=q]' % (
             'C' if cx else 'R')] = lambda I, S, cx=cx: inst(
                 I, 'PointwiseInnerAdjoint', vf(cx, None)[0],
@@ -422,7 +437,7 @@ def evaluate(model, build):
                 else flat(v)
         a, b = ent(ran, Ax), ent(ran, A2x)
         bad = [k for k, (p, q) in enumerate(zip(a, b))
-               if not PA.equal_exact(p, q, WIT)]
+               if not PA.same(p, q, WIT)]
         if len(a) != len(b) or bad:
             res['invol'] = ('adjoint.adjoint(x) differs from A(x) in %d of '
                             '%d entries' % (len(bad), len(a)))
@@ -470,7 +485,7 @@ def run(rep, model):
         if not (r['adj_ran'] == r['dom']):
             probs.append('adjoint.range is %r, the domain is %r'
                          % (r['adj_ran'], r['dom']))
-        if not PA.equal_exact(r['lhs'], r['rhs'], WIT):
+        if not PA.same(r['lhs'], r['rhs'], WIT):
             short = lambda v: (lambda t: t if len(t) <= 240 else t[:240] +
                                ' ...')(repr(v))
             probs.append('%s<A x, y> = %s but <x, A* y> = %s' % (
